@@ -54,17 +54,37 @@ class FrameRecord:
                     "exc": "", "regs": self.regs, "rounds": [], "steps": [], "rewrites": [], "premove": [],
                     "postmove": [], "coalesced": [], "emitted": [], "colour": []}
         self.pending_blocks = None
+        try:
+            self.classes = list(arch.info.register_classes)
+        except Exception:
+            self.classes = []
 
     # ---- registers ------------------------------------------------------
+    def machine_register(self, reg):
+        """The machine register a coloured register denotes: the register numbered `reg.color` in the
+        register file of reg's type (searched in the architecture's register classes: same type first,
+        then sub/super types; `from_num` as a fallback).  None if there is none."""
+        col, typ = reg.color, type(reg)
+        exact, related = [], []
+        for rc in self.classes:
+            if rc.typ is typ:
+                exact += [r for r in rc.registers or () if r.color == col]
+            elif issubclass(typ, rc.typ) or issubclass(rc.typ, typ):
+                related += [r for r in rc.registers or () if r.color == col]
+        for cands in (exact, related):
+            if cands:
+                return cands[0]
+        try:
+            return typ.from_num(col)
+        except Exception:
+            return None
+
     def _canon(self, reg):
         """The object standing for this register's identity."""
         if getattr(reg, "_num", None) is not None or reg.color is None:
             return reg
         # coloured virtual-looking register: identified with the machine register it denotes
-        try:
-            return type(reg).from_num(reg.color)
-        except Exception:
-            return reg
+        return self.machine_register(reg) or reg
 
     def rid(self, reg, force_self=False):
         if id(reg) in self.reg_ids:
@@ -90,12 +110,9 @@ class FrameRecord:
     def add_class_registers(self, arch):
         """Machine registers of the architecture's register classes (so that super-registers of the
         ones mentioned are known to the alias relation)."""
-        try:
-            for rc in arch.info.register_classes:
-                for r in rc.registers or ():
-                    self.rid(r)
-        except Exception:
-            pass
+        for rc in self.classes:
+            for r in rc.registers or ():
+                self.rid(r)
 
     # ---- instructions ---------------------------------------------------
     def ins(self, obj):
@@ -123,10 +140,8 @@ class FrameRecord:
             n = self.reg_ids[id(o)]
             if self.regs[n - 1]["p"] or o.color is None:
                 continue
-            try:
-                pn = self.rid(type(o).from_num(o.color))
-            except Exception:
-                pn = 0
+            m = self.machine_register(o)
+            pn = self.rid(m) if m is not None else 0
             out += [0] * (len(self.regs) - len(out))
             out[n - 1] = pn
         out += [0] * (len(self.regs) - len(out))
